@@ -157,8 +157,8 @@ func Qualifier(name, query string) (Filter, error) {
 	if name == "" {
 		return func(f Feature) bool {
 			for _, vv := range f.Props {
-				for _, v := range vv {
-					if re.MatchString(v) {
+				for i, v := range vv {
+					if i > 0 && re.MatchString(v) {
 						return true
 					}
 				}
